@@ -86,6 +86,32 @@ def run(chk, facts):
     chk.rule("R-C04-9", "no element is dropped before it is compared: every zip/take/skip in the checker is length-guarded or reviewed (shared census)")
     from .quant import truncation_census
     truncation_census(chk, facts, "R-C04-9")
+    # ---------------- R-C04-10 ----------------
+    # "We use sets to type check all possible execution paths": a constraint generated inside a branch has to reach every open set that
+    # describes a path through that branch.  ConstrBuilder keeps one set per alternative and never merges sets again (invariant
+    # inv:ConstrBuilder.constraints-never-shrinks); so once two sets are open (after the first if / match), a later branch point must still
+    # add the constraints of its first branch to *all* of them.  Read off add_constr_map: which sets receive a constraint while `joined` is
+    # false (i.e. between branch_point() and reset_branches())?
+    chk.rule("R-C04-10", "constraints generated inside a branch reach every open constraint set (path) that runs through the branch")
+    try:
+        acm = syn.one_fn("add_constr_map", impl_of="ConstrBuilder")
+        bp = syn.one_fn("branch_point", impl_of="ConstrBuilder")
+        ifs = [n for n in walk(acm["body"]) if n.get("k") == "if" and src(strip(n["c"]), -30).replace(" ", "").strip("()") in ("self.joined", "!self.joined") and n.get("else") is not None]
+        if len(ifs) != 1:
+            raise AnchorError(f"add_constr_map: {len(ifs)} branches on self.joined")
+        neg = src(strip(ifs[0]["c"]), -30).replace(" ", "").strip("()").startswith("!")
+        not_joined = ifs[0]["then"] if neg else ifs[0]["else"]
+        loops = [n for n in walk(not_joined) if n.get("k") in ("for", "while") or (n.get("k") == "mcall" and n["m"] in ("for_each", "iter_mut"))]
+        single = [n for n in walk(not_joined) if n.get("k") == "index" and "self.constraints" in src(n["e"], -30)]
+        unjoins = "self.joined=false" in src(bp["body"], -30).replace(" ", "")
+        only_last = bool(single) and not loops and unjoins
+        chk.ob("R-C04-10", "branch-constraints-reach-all-open-sets", not only_last,
+               "constraints added between a branch point and the join reach every open set" if not only_last else
+               "after branch_point() (joined = false) add_constr_map pushes a constraint to the last set only, and sets are never merged: once an earlier if / match has "
+               "left two sets open, the first branch of a later one is checked against the last alternative of the earlier one only - some combinations of branches are never type checked",
+               facts.loc_of(acm))
+    except AnchorError as e:
+        chk.anchor_fail("R-C04-10", e)
     # the unifier accepts a pair of types only through the assignability relation (shared with C05 / C06)
     from . import c05 as _c05, c06 as _c06
     from .common import borrow
